@@ -12,6 +12,9 @@
 (*                      transmitted (one wire component per kind)          *)
 (*   Receive(cfg, kv)   VerifyHTTPRequest at a receiver with local names   *)
 (*                      cfg and a key database in state kv                 *)
+(*   Later(l)           the same receiver process goes on to handle other  *)
+(*                      requests (class l of their bodies) while the       *)
+(*                      result of an accepted request is still in use      *)
 (*                                                                         *)
 (* Values are abstract: "M" = the composed method, "M2" = another one,     *)
 (* "U"/"U2" URIs, "O" the composed origin, "O2" another (valid, known)     *)
@@ -29,6 +32,7 @@ CONSTANTS Methods, URIs, OriginShapes, DestShapes, Spellings, Bodies, Styles, Ke
           NKeys,          \* numbers of key IDs the origin signs with (subset of {1, 2})
           Knowns,         \* which signing keys the receiver knows
           TamperKinds,    \* the tamperings explored
+          Laters,         \* what the receiver handles afterwards (subset of AllLaters)
           MaxTamper,      \* at most this many tamperings per request
           Budget          \* (deviations from the base scenario) + (tamperings) <= Budget
 
@@ -38,6 +42,10 @@ BaseShape  == "dns"
 BaseStyle  == "canon"
 BaseKV     == "valid"
 BaseKnown  == "both"
+\* later requests handled by the same process, by their body relative to the accepted request's: of the same
+\* length (other bytes), shorter, longer, none at all
+AllLaters  == {"same", "shorter", "longer", "nobody"}
+BaseLater  == "same"
 
 \* states of the database record of the origin's key K at the time of receipt in which K is valid:
 \*   valid      valid_until_ts in the future (within 7 days)       validfar  valid_until_ts beyond 7 days
@@ -61,11 +69,15 @@ ValidKVs == {"valid", "validfar", "expfuture", "fetched", "refreshed"}
 ExtraInvalidOrigins == {"inv_brk4", "inv_brk4port", "inv_portbig", "inv_port6", "inv_portneg", "inv_portplus",
                         "inv_emptyhost", "inv_underscore", "inv_space", "inv_slash", "inv_bracket", "inv_long",
                         \* not even safe inside the quoted string of the header: must not be emitted as is
-                        "inv_quote", "inv_backslash"}
+                        "inv_quote", "inv_backslash",
+                        \* near the IPv6 literal grammar (FedName.tla states it; c13name explores it token by token): a zone
+                        \* identifier without / with port ([fe80::1%eth0], [fe80::1%1]:8448), nine groups or seven, a second
+                        \* "::", a group that is not 1-4 hex digits, nothing between the brackets, text after the bracket
+                        "inv_zone", "inv_zoneport", "inv_v6groups", "inv_v6dcolon", "inv_v6hex", "inv_v6empty", "inv_v6trail"}
 InvalidOrigins == {"invalid"} \cup ExtraInvalidOrigins
 
 AllTamperKinds ==
-    {"method", "method_same", "uri", "origin", "drop_origin", "dest_local", "dest_foreign", "drop_dest",
+    {"method", "method_same", "method_case", "uri", "uri_case", "origin", "drop_origin", "dest_local", "dest_foreign", "drop_dest",
      "body", "body_ws", "body_drop", "nonutf8", "ctype_text", "ctype_none", "ctype_param",
      "sig_flip", "drop_sig", "key_other", "drop_key", "scheme", "dup_header", "second_origin",
      "origin_case", "dest_case", "second_case",
@@ -78,8 +90,8 @@ OpenKinds == {"scheme_case", "sig_respell"}
 
 \* the wire component a tampering rewrites; two tamperings of one component are one tampering
 Component(k) ==
-    CASE k \in {"method", "method_same"} -> "method"
-      [] k = "uri" -> "uri"
+    CASE k \in {"method", "method_same", "method_case"} -> "method"
+      [] k \in {"uri", "uri_case"} -> "uri"
       [] k \in {"origin", "drop_origin", "origin_case"} -> "horigin"
       [] k \in {"dest_local", "dest_foreign", "drop_dest", "dest_case"} -> "hdest"
       [] k \in {"body", "body_ws", "body_drop", "nonutf8", "body_notjson", "body_readerr"} -> "body"
@@ -95,9 +107,11 @@ VARIABLES phase,     \* "init" "composed" "signed" "sent" "received"
           wire,      \* what is in flight
           applied,   \* history: set of tamperings applied
           rcv,       \* history: receiver parameters
-          out        \* result of Receive
+          out,       \* result of Receive: what the *FederationRequest handed to the caller reports (now)
+          first,     \* history: the result as Receive returned it
+          later      \* history: what the receiver handled afterwards
 
-vars == <<phase, req, signed, wire, applied, rcv, out>>
+vars == <<phase, req, signed, wire, applied, rcv, out, first, later>>
 
 None == [none |-> TRUE]
 
@@ -130,7 +144,7 @@ Compose(m, u, os, osp, ds, dsp, down, b, entry) ==
     /\ ReqDev([m |-> m, u |-> u, os |-> os, ds |-> ds, osp |-> osp, dsp |-> dsp, body |-> b, entry |-> entry]) <= Budget   \* nothing beyond the budget is ever received
     /\ req' = [m |-> m, u |-> u, os |-> os, osp |-> osp, ds |-> ds, dsp |-> dsp, down |-> down, body |-> b, entry |-> entry]
     /\ phase' = "composed"
-    /\ UNCHANGED <<signed, wire, applied, rcv, out>>
+    /\ UNCHANGED <<signed, wire, applied, rcv, out, first, later>>
 
 BodyVal(b) == CASE b = "none" -> "none" [] b = "nonutf8" -> "X" [] OTHER -> "B"
 
@@ -141,7 +155,7 @@ Sign(nk) ==
     /\ req.entry = "client" => nk = 1           \* a client signs with its one identity
     /\ signed' = [m |-> "M", u |-> "U", o |-> "O", d |-> req.down, b |-> BodyVal(req.body), nk |-> nk]
     /\ phase' = "signed"
-    /\ UNCHANGED <<req, wire, applied, rcv, out>>
+    /\ UNCHANGED <<req, wire, applied, rcv, out, first, later>>
 
 Emit(style) ==
     /\ phase = "signed"
@@ -151,7 +165,7 @@ Emit(style) ==
                 scheme |-> "X-Matrix", origin |-> signed.o, dest |-> signed.d, key |-> "K", sig |-> "S0", nk |-> signed.nk,
                 dup |-> FALSE, second |-> FALSE, secondc |-> FALSE, split |-> FALSE, respell |-> FALSE, nohdr |-> FALSE, bearer |-> FALSE, style |-> style]
     /\ phase' = "sent"
-    /\ UNCHANGED <<req, signed, applied, rcv, out>>
+    /\ UNCHANGED <<req, signed, applied, rcv, out, first, later>>
 
 \* ----------------------------------------------------------------- network
 Dev == ReqDev(req) + NkDev(signed.nk) + StyleDev(wire.style)
@@ -167,6 +181,10 @@ Tamper(k) ==
     /\ wire' =
          CASE k = "method"       -> [wire EXCEPT !.method = "M2"]
            [] k = "method_same"  -> [wire EXCEPT !.method = "M"]
+           \* the same word / the same target in another letter case: method tokens and request targets are case
+           \* sensitive, "get" is not the method that was signed (nor is /_matrix/Federation/.. the signed target)
+           [] k = "method_case"  -> [wire EXCEPT !.method = "Mc"]
+           [] k = "uri_case"     -> [wire EXCEPT !.uri = "Uc"]
            [] k = "uri"          -> [wire EXCEPT !.uri = "U2"]
            [] k = "origin"       -> [wire EXCEPT !.origin = "O2"]
            [] k = "drop_origin"  -> [wire EXCEPT !.origin = "-"]
@@ -197,7 +215,7 @@ Tamper(k) ==
            [] k = "dest_case"    -> [wire EXCEPT !.dest = @ \o "c"]
            [] k = "no_header"    -> [wire EXCEPT !.nohdr = TRUE]
            [] k = "extra_bearer" -> [wire EXCEPT !.bearer = TRUE]
-    /\ UNCHANGED <<phase, req, signed, rcv, out>>
+    /\ UNCHANGED <<phase, req, signed, rcv, out, first, later>>
 
 \* -------------------------------------------- the header text, as tokens
 BareShapes == {"dns", "port", "ipv4"}
@@ -310,6 +328,10 @@ Verdict(w, cfg, kv, known) ==
     IN IF acc THEN [accept |-> TRUE, m |-> w.method, u |-> w.uri, o |-> o, d |-> d, b |-> w.body]
               ELSE [accept |-> FALSE, m |-> "", u |-> "", o |-> "", d |-> "", b |-> ""]
 
+\* the transmission with the open tamperings (OpenKinds) taken back: a receiver that tolerates them may accept
+\* exactly what it would accept without them
+Lenient(w) == [w EXCEPT !.scheme = IF @ = "X-MATRIX" THEN "X-Matrix" ELSE @, !.respell = FALSE]
+
 Receive(cfg, kv, known) ==
     /\ phase = "sent"
     /\ signed.nk = 1 => known = BaseKnown         \* (with one signing key "K unknown" is the key state "unknown")
@@ -319,11 +341,24 @@ Receive(cfg, kv, known) ==
     /\ Dev + Cardinality(applied) + (IF kv = BaseKV THEN 0 ELSE 1) + (IF known = BaseKnown THEN 0 ELSE 1) + CfgDev(cfg) <= Budget
     /\ rcv' = [cfg |-> cfg, kv |-> kv, known |-> known]
     /\ out' = Verdict(wire, cfg, kv, known)
+    /\ first' = out'
     /\ phase' = "received"
-    /\ UNCHANGED <<req, signed, wire, applied>>
+    /\ UNCHANGED <<req, signed, wire, applied, later>>
+
+RcvDev == (IF rcv.kv = BaseKV THEN 0 ELSE 1) + (IF rcv.known = BaseKnown THEN 0 ELSE 1) + CfgDev(rcv.cfg)
+
+\* The receiver handles further requests.  The result of the accepted one belongs to the caller: nothing the
+\* receiver does afterwards is part of this request, so what was reported stays as it was.
+Later(l) ==
+    /\ phase = "received"
+    /\ out.accept
+    /\ Dev + Cardinality(applied) + RcvDev + (IF l = BaseLater THEN 0 ELSE 1) <= Budget
+    /\ later' = l
+    /\ phase' = "later"
+    /\ UNCHANGED <<req, signed, wire, applied, rcv, out, first>>
 
 Init == /\ phase = "init" /\ req = None /\ signed = None /\ wire = None
-        /\ applied = {} /\ rcv = None /\ out = None
+        /\ applied = {} /\ rcv = None /\ out = None /\ first = None /\ later = "-"
 
 Next == \/ /\ phase = "init"       \* (guards repeated outside the quantifiers: TLC evaluates them first)
            /\ \E m \in Methods, u \in URIs, os \in OriginShapes, ds \in DestShapes, down \in DestOwns, b \in Bodies,
@@ -336,18 +371,25 @@ Next == \/ /\ phase = "init"       \* (guards repeated outside the quantifiers: 
         \/ /\ phase = "sent"
            /\ \/ \E k \in TamperKinds : Tamper(k)
               \/ \E cfg \in Cfgs, kv \in KeyVals, known \in Knowns : Receive(cfg, kv, known)
+        \/ /\ phase = "received"
+           /\ \E l \in Laters : Later(l)
 
 Spec == Init /\ [][Next]_vars
 
 (***************************************************************************)
 (* The property, over the history variables only.                          *)
 (***************************************************************************)
-Done == phase = "received"
+Done == phase \in {"received", "later"}
+\* nothing more happens to this request (a refused one has reported nothing that could change)
+Final == phase = "later" \/ (phase = "received" /\ ~out.accept)
 SignedFields == [m |-> signed.m, u |-> signed.u, o |-> signed.o, d |-> signed.d, b |-> signed.b]
 Reported     == [m |-> out.m, u |-> out.u, o |-> out.o, d |-> out.d, b |-> out.b]
 
 \* non-interference: whatever was done to the transmission, an accepted request is the signed one
 NonInterference == (Done /\ out.accept) => Reported = SignedFields
+
+\* ... and stays the signed one, whatever the receiver handles next
+ReportStable == phase = "later" => out = first
 
 \* tamperings that leave every transmitted value as it was
 Harmless == {"method_same", "body_ws", "ctype_param", "dup_header", "extra_bearer"}
@@ -376,10 +418,11 @@ RefuseNoHeader  == (Done /\ applied \cap {"no_header", "scheme", "split_header",
 RefuseBadOrigin == (Done /\ req.os \in InvalidOrigins /\ "origin" \notin applied) => ~out.accept
 RefuseBadBody   == (Done /\ wire.body # "none" /\ (wire.ctype \in {"text", "absent"} \/ wire.body \in {"X", "X2", "T", "E"})) => ~out.accept
 RefuseBadKey    == (Done /\ ~SomeSigningKeyValid) => ~out.accept
-RefuseChanged   == (Done /\ applied \cap {"method", "uri", "origin", "dest_local", "dest_foreign", "body", "nonutf8", "origin_case", "dest_case"} # {}) => ~out.accept
+RefuseChanged   == (Done /\ applied \cap {"method", "method_case", "uri", "uri_case", "origin", "dest_local", "dest_foreign", "body", "nonutf8", "origin_case", "dest_case"} # {}) => ~out.accept
 RefuseBadSig    == (Done /\ signed.nk = 1 /\ applied \cap {"sig_flip", "key_other"} # {}) => ~out.accept
 
-TypeOK == /\ phase \in {"init", "composed", "signed", "sent", "received"}
+TypeOK == /\ phase \in {"init", "composed", "signed", "sent", "received", "later"}
+          /\ later \in AllLaters \cup {"-"}
           /\ Cardinality(applied) <= MaxTamper
           /\ applied \subseteq AllTamperKinds
 =============================================================================
